@@ -86,6 +86,19 @@ def pCmd : Nat → List Str → Option (Cmd × List Str)
         else if o = ['i'] then some (.setOpt .inheritErrexit (v = ['1']), r)
         else none
       | _ => none
+    else if k = "Fa" then
+      match ts with
+      | a :: r =>
+        let fk : Option FaultKind :=
+          if a = ['r'] then some .readonlyAssign else if a = ['n'] then some .notFound
+          else if a = ['d'] then some .redirFail else if a = ['b'] then some .tempBuiltin
+          else if a = ['x'] then some .tempExternal else none
+        fk.map (fun x => (.fault x, r))
+      | _ => none
+    else if k = "KT" then
+      match ts with
+      | a :: r => (parseNat? a).map (fun f => (.callT f, r))
+      | _ => none
     else if k = "Cs" then (pCmd fuel ts).map (fun (c, r) => (.cmdsubst c, r))
     else if k = "Ev" then (pCmd fuel ts).map (fun (c, r) => (.evalC c, r))
     else if k = "Pi" then
